@@ -246,6 +246,74 @@ def outcome_on_path(body, du, path, call_bid):
     return None
 
 
+def result_outcomes(body, du, path):
+    """Which outcome (`ok` / `err`) each call on `path` must have had, read off the path itself: the call's `Result`
+    (or `Option`: Some = ok) is followed through moves, `?` (Try::branch -> Continue/Break), and the arm the path takes at
+    a switch on its discriminant fixes the outcome.  Returns ({call block -> 'ok'|'err'}, feasible); feasible is False
+    when the path takes the `Err` arm of a value it built as `Ok(..)` itself (or vice versa)."""
+    path = list(path)
+    env = {}
+    out = {}
+    OK = {"Ok": "ok", "Err": "err", "Continue": "ok", "Break": "err", "Some": "ok", "None": "err"}
+    for idx, x in enumerate(path):
+        blk = body.blocks[x]
+        for st_ in blk["stmts"]:
+            if st_["k"] != "assign":
+                continue
+            l = st_["lhs"]["l"]
+            if st_["lhs"]["proj"]:
+                env.pop(l, None)
+                continue
+            rv = st_["rhs"]
+            src = rv["a"]["p"]["l"] if rv["k"] == "use" and rv["a"]["k"] in ("copy", "move") and not rv["a"]["p"]["proj"] else None
+            if src is not None and src in env:
+                env[l] = env[src]
+            elif rv["k"] == "agg" and norm(rv.get("adt") or "") in ("std::result::Result", "std::option::Option"):
+                a_ = body.facts.nadts.get(norm(rv["adt"])) or {"variants": []}
+                vn = [v_["name"] for v_ in a_["variants"] if str(v_.get("discr")) == str(rv["variant"]) or v_["name"] == rv["variant"]]
+                env[l] = ("known", vn[0]) if vn else None
+                if env[l] is None:
+                    env.pop(l)
+            else:
+                env.pop(l, None)
+        t = blk["term"]
+        if t["k"] == "call":
+            c = norm(t.get("callee") or "")
+            dl = t["dest"]["l"] if not t["dest"]["proj"] else None
+            a0 = t["args"][0] if t["args"] else None
+            a0l = a0["p"]["l"] if a0 is not None and a0["k"] in ("copy", "move") and not a0["p"]["proj"] else None
+            val = None
+            if c.endswith("Try>::branch") and a0l in env:
+                v = env[a0l]
+                val = ("cf", v[1]) if v[0] in ("res", "cf") else ("knowncf", v[1])
+            elif c.endswith("from_residual"):
+                val = ("known", "Err")
+            else:
+                val = ("res", x)
+            if dl is not None:
+                env[dl] = val
+        elif t["k"] == "switch" and idx + 1 < len(path):
+            si = switch_info(body, du, x)
+            if si["kind"] == "discr" and not si["place"]["proj"] and si["place"]["l"] in env:
+                v = env[si["place"]["l"]]
+                nxt = path[idx + 1]
+                names = [n for n, bb in si["arms"].items() if bb == nxt]
+                if not names and nxt == t["otherwise"]:
+                    names = list(si.get("rest") or [])
+                names = set(names)
+                if v[0] in ("res", "cf") and len(names) == 1:
+                    r_ = OK.get(next(iter(names)))
+                    if r_ is not None:
+                        if out.get(v[1], r_) != r_:
+                            return out, False
+                        out[v[1]] = r_
+                elif v[0] == "known" and names and v[1] not in names:
+                    return out, False
+                elif v[0] == "knowncf" and names and {"Ok": "Continue", "Err": "Break", "Some": "Continue", "None": "Break"}.get(v[1]) not in names:
+                    return out, False
+    return out, True
+
+
 def int_facts(conds, is_who):
     """What a path's conditions say about one integer operand (is_who(descr) -> bool picks it): (eq, ne) -- the set of
     constants it was found equal to and the set it was found different from -- whether the author wrote a `match`
